@@ -14,6 +14,8 @@ import (
 	"strings"
 	"time"
 
+	"github.com/golang/protobuf/proto"
+
 	ledgerpkg "github.com/xuperchain/xupercore/bcs/ledger/xledger/ledger"
 	"github.com/xuperchain/xupercore/bcs/ledger/xledger/state/utxo"
 	pb "github.com/xuperchain/xupercore/bcs/ledger/xledger/xldgpb"
@@ -263,6 +265,9 @@ func (nm *NodeMachine) Apply(op NOp) error {
 		if err := nm.samePoolSet(pooltxs); err != nil {
 			return err
 		}
+		if a, f := n.Ledger.GenesisBlock.CalcAward(height), n.FreshAward(height); a.Cmp(f) != 0 {
+			return fmt.Errorf("CalcAward(%d)=%s on the running node, %s on a node without history", height, a, f)
+		}
 		txs := []*pb.Transaction{AwardTx(prop.Address, n.Ledger.GenesisBlock.CalcAward(height), "award-"+op.Label, nm.LM.Ts)}
 		if auto, err := n.State.GetTimerTx(height); err == nil && auto != nil && len(auto.TxOutputsExt) > 0 {
 			txs = append(txs, auto)
@@ -347,8 +352,8 @@ func (nm *NodeMachine) Apply(op NOp) error {
 		if ncb != 1 {
 			return fmt.Errorf("packed block has %d coinbase transactions", ncb)
 		}
-		if aw := new(big.Int).SetBytes(blk.Transactions[0].TxOutputs[0].Amount); aw.Cmp(n.Ledger.GenesisBlock.CalcAward(height)) != 0 {
-			return fmt.Errorf("packed block awards %s, CalcAward(%d)=%s", aw, height, n.Ledger.GenesisBlock.CalcAward(height))
+		if aw := new(big.Int).SetBytes(blk.Transactions[0].TxOutputs[0].Amount); aw.Cmp(n.FreshAward(height)) != 0 {
+			return fmt.Errorf("packed block awards %s, a node without history computes CalcAward(%d)=%s (IsValidTx there rejects the block)", aw, height, n.FreshAward(height))
 		}
 		pristine := CloneTxs(blk.Transactions)
 		var general []*pb.Transaction
@@ -357,8 +362,27 @@ func (nm *NodeMachine) Apply(op NOp) error {
 				general = append(general, tx)
 			}
 		}
-		if err := nm.samePoolSet(general); err != nil {
-			return fmt.Errorf("packed block: %v", err)
+		// the body is a sub-list of the pool (all of it unless the size limit cut it)
+		pending := map[string]bool{}
+		for _, t := range nm.Pool {
+			pending[string(t.Txid)] = true
+		}
+		packed := map[string]bool{}
+		for _, t := range general {
+			if !pending[string(t.Txid)] || packed[string(t.Txid)] {
+				return fmt.Errorf("packed block carries %s which is not pending (or twice)", Hex8(t.Txid))
+			}
+			packed[string(t.Txid)] = true
+		}
+		if len(general) < len(nm.Pool) {
+			nm.Stat["minereal-cut-by-size-limit"]++
+			var size int
+			for _, t := range nm.Pool {
+				size += proto.Size(t)
+			}
+			if lim, _ := n.State.MaxTxSizePerBlock(); size <= lim {
+				return fmt.Errorf("packed block carries %d of %d pending transactions although all of them (%d bytes) fit the limit %d", len(general), len(nm.Pool), size, lim)
+			}
 		}
 		prop := Ring[MinerKey]
 		ns := nm.States[parent].Clone()
@@ -388,8 +412,14 @@ func (nm *NodeMachine) Apply(op NOp) error {
 			return fmt.Errorf("PlayForMiner(%s): %v", op.Label, err)
 		}
 		nm.Ptr = idx
-		nm.Pool = nil
+		oldPool := nm.Pool
 		nm.applied(idx)
+		if err := nm.adoptPool(oldPool, pristine, "own block"); err != nil {
+			return err
+		}
+		if len(nm.Pool) != len(oldPool)-len(general) {
+			return fmt.Errorf("after the own block %d transactions are pending, expected the %d that were not packed", len(nm.Pool), len(oldPool)-len(general))
+		}
 		nm.Stat["minereal"]++
 		if len(general) > 1 {
 			nm.Stat["minereal-pool>=2"]++
@@ -1601,7 +1631,7 @@ func AssembleFromResponse(spec *TxSpec, resp *protos.InvokeResponse) *pb.Transac
 		v = 3
 	}
 	tx := &pb.Transaction{Version: v, Nonce: fmt.Sprintf("n%d", spec.Seq), Timestamp: int64(spec.Seq), Initiator: k.Address,
-		AuthRequire: []string{k.Address}, Desc: []byte(spec.Desc)}
+		AuthRequire: []string{k.Address}, Desc: descOf(spec)}
 	for _, r := range spec.Ins {
 		id, _ := hex.DecodeString(r.Txid)
 		a, _ := new(big.Int).SetString(r.Amount, 10)
